@@ -335,7 +335,14 @@ fn writer_frames(g: &mut Gen, st: &mut Stats) -> CaseResult {
     st.eval();
     let n = g.below(6);
     let vals: Vec<Val> = (0 .. n).map(|_| Val::any(g)).collect();
-    let mut w = Writer::new(ShortSink::draw(g));
+    // the writer's scratch buffer: fresh, or handed in by the caller - empty, small and used, or with a large capacity left over
+    // from earlier traffic; now and then the limit is raised and a frame above 1 MiB goes through (buffers of that size are
+    // where memory-conscious code starts to behave differently)
+    let ctor = g.below(8);
+    let mut w = match ctor { 0 => Writer::with_buffer(ShortSink::draw(g), Vec::new()), 1 => Writer::with_buffer(ShortSink::draw(g), g.bytes(30)), 2 => Writer::with_buffer(ShortSink::draw(g), Vec::with_capacity(*g.pick(&[70_000usize, 1 << 20, (1 << 20) + 1, 3 << 20]))), _ => Writer::new(ShortSink::draw(g)) };
+    let mut vals = vals;
+    if g.below(600) == 0 { w.set_max_len(4 << 20); let n = (1usize << 20) + g.below(300_000); vals.insert(g.below(vals.len() + 1), Val::B((0 .. n).map(|i| (i * 131 + i / 256) as u8).collect())); st.class("writer/frame above 1 MiB") }
+    st.class(["writer/with_buffer(empty)", "writer/with_buffer(used)", "writer/with_buffer(large capacity)", "writer/new", "writer/new", "writer/new", "writer/new", "writer/new"][ctor]);
     for v in &vals {
         let want = v.encoded().len();
         match write_val(&mut w, v) { Ok(k) => ensure!(k == want, "writer-return", "write returned {} for a {}-byte payload", k, want), Err(e) => fail!("writer-error", "write failed: {}", e) }
